@@ -485,6 +485,7 @@ def make_registry_case(case_seed: str, tier: str, k: int):
         hist = gen_history(rng, spec, cfg, group, force_idle)
         ms = build_metrics(spec, cfg, hist)
         counts = {g: [len(hist[g])] for g in group}
+        named = [(None, cfg, hist)]
     else:
         h1 = gen_history(rng, spec, cfg, group, force_idle)
         cfg2 = fresh_cfg(spec.configs[int(ci)])
@@ -492,7 +493,30 @@ def make_registry_case(case_seed: str, tier: str, k: int):
         m1, m2 = build_metrics(spec, cfg, h1), build_metrics(spec, cfg2, h2)
         ms = {g: {"zeta": m1[g], "alpha": m2[g]} for g in group}     # insertion order ≠ sorted order on purpose
         counts = {g: [len(h1[g]), len(h2[g])] for g in group}
+        named = [("zeta", cfg, h1), ("alpha", cfg2, h2)]
+    make_registry_case.last_record = registry_record(named, group)
     return spec, cfg, world, group, entry, ms, counts
+
+
+def registry_record(named, group):
+    """replayable content of a registry case: per member, per metric (in the collection's insertion order; name None = the single
+    metric form) the public configuration and the update history (every batch with its tensors' dtype and shape)"""
+    return {str(g): [{"name": name, "cfg": public_cfg(cfg), "history": [b.describe() for b in hist[g]]} for name, cfg, hist in named] for g in group}
+
+
+def metrics_from_record(spec: Spec, ranks: dict, group):
+    """{g: metric | {name: metric}} rebuilt from `registry_record` (fresh objects, fed their recorded updates)"""
+    from ..registry import Batch
+    ms = {}
+    for g in group:
+        built = []
+        for ent in ranks[str(g)]:
+            m = new_metric(spec, dict(ent["cfg"]))
+            for d in ent["history"]:
+                Batch.from_describe(d).apply(m)
+            built.append((ent["name"], m))
+        ms[g] = built[0][1] if (len(built) == 1 and built[0][0] is None) else {name: m for name, m in built}
+    return ms
 
 
 def run_registry_case(rep: Report, case_seed: str, tier: str, k: int, lines, pend):
@@ -504,7 +528,8 @@ def run_registry_case(rep: Report, case_seed: str, tier: str, k: int, lines, pen
     rep.count(f"idle-ranks:{min(2, sum(1 for g in group if sum(counts[g]) == 0))}")
     js = (zlib.crc32(case_seed.encode()) % 100000) if k % 4 == 0 else None
     check_case(rep, label=f"{spec.name}{public_cfg(cfg)}", cls=spec.name, cfg_pub=public_cfg(cfg), entry=entry, world=world, group=group,
-               ms=ms, tol=spec.tol, replay={"kind": "registry", "case_seed": case_seed, "tier": tier, "k": k, **desc},
+               ms=ms, tol=spec.tol, replay={"kind": "registry", "case_seed": case_seed, "tier": tier, "k": k, **desc,
+                                            "ranks": make_registry_case.last_record, "jitter_seed": js, "tol": spec.tol},
                jitter_seed=js, model_lines=lines, pending=pend)
 
 # ------------------------------------------------------------------ custom metric cases
@@ -555,6 +580,24 @@ def make_bag_case(case_seed: str):
     return world, group, kinds, variant, entry, ms, extra
 
 
+def bag_record(ms: dict, group):
+    """replayable content of a case over the custom metric: per member, per metric (insertion order; name None = single form)
+    the registered states as text (`enc_collection`: tensors with dtype and shape, list / dict states in their order, int, float)"""
+    out = {}
+    for g in group:
+        items = [(None, ms[g])] if isinstance(ms[g], Metric) else list(ms[g].items())
+        out[str(g)] = [[name, enc_collection({"tmp": clone_metric(m).state_dict()})] for name, m in items]
+    return out
+
+
+def bags_from_record(ranks: dict, group):
+    ms = {}
+    for g in group:
+        built = [(name, bag_from(fd.dec_collection(text).get("tmp", {}))) for name, text in ranks[str(g)]]
+        ms[g] = built[0][1] if (len(built) == 1 and built[0][0] is None) else {name: m for name, m in built}
+    return ms
+
+
 def bag_cases(rep: Report, seed: int, n_cases: int, deadline: float):
     lines, pend = [], []
     bag_lines, bag_pend = [], []
@@ -575,7 +618,8 @@ def bag_cases(rep: Report, seed: int, n_cases: int, deadline: float):
                              + " ".join(f"r{g}={enc_collection(colls[g])}" for g in group))
             bag_pend.append({"entry": entry, "world": world, "group": group, "colls": colls, "desc": desc, "seed": case_seed})
         check_case(rep, label=f"Bag({kinds},{variant})", cls="Bag", cfg_pub={"kinds": kinds, "variant": variant}, entry=entry, world=world,
-                   group=group, ms=ms, tol=1e-6, replay={"kind": "bag", "case_seed": case_seed, **desc}, extra=extra,
+                   group=group, ms=ms, tol=1e-6, replay={"kind": "bag", "case_seed": case_seed, **desc, "ranks": bag_record(ms, group), "extra": extra,
+                                                         "jitter_seed": (i if i % 3 == 0 else None), "tol": 1e-6}, extra=extra,
                    jitter_seed=(i if i % 3 == 0 else None), model_lines=lines, pending=pend)
     flush_model(rep, lines, pend, "bag-trace")
     # merged state of the model vs the real synced metric's state_dict
@@ -618,29 +662,45 @@ def bag_from(sd: dict) -> Bag:
 # ------------------------------------------------------------------ world size 1 / no process group
 
 
+def short_circuit_verdict(m, init: bool):
+    """world size 1 (`init`) / no process group: the toolkit must hand back the very objects it was given and issue no collective.
+    returns None or a description of what came back"""
+    w = World(1, initialized=init)
+    outs = w.run(lambda r: (toolkit.get_synced_metric(m), toolkit.get_synced_metric_collection({"a": m})))
+    o = outs[0]
+    coll_ok = o.ok and isinstance(o.value[1], dict) and o.value[1].get("a") is m
+    if o.ok and o.value[0] is m and coll_ok and w.trace[0] == []:
+        return None
+    return f"{o} trace={w.trace[0]}"
+
+
 def short_circuit_cases(rep: Report, rng: Rng):
     n = 0
     for spec in SPECS[:: 3]:
         cfg = fresh_cfg(spec.configs[0])
         m = new_metric(spec, cfg)
+        b = spec.gen(rng, cfg, spec.sizes[-1])
         try:
-            spec.gen(rng, cfg, spec.sizes[-1]).apply(m)
+            b.apply(m)
         except Exception:  # noqa: BLE001
             continue
         for init in (False, True):
-            w = World(1, initialized=init)
-            outs = w.run(lambda r: (toolkit.get_synced_metric(m), toolkit.get_synced_metric_collection({"a": m})))
-            o = outs[0]
             n += 1
             rep.case(nontrivial_key=("ws1", spec.name, init))
             rep.count("short-circuit:" + ("ws1" if init else "uninitialised"))
-            coll_ok = o.ok and isinstance(o.value[1], dict) and o.value[1].get("a") is m
-            if not (o.ok and o.value[0] is m and coll_ok and w.trace[0] == []):
+            bad = short_circuit_verdict(m, init)
+            if bad:
                 rep.violation(f"C02|get_synced_metric|{'world-size-1' if init else 'uninitialised'}|input-not-returned",
-                              f"{spec.name}: {o} trace={w.trace[0]}", {"kind": "short-circuit", "class": spec.name, "init": init})
+                              f"{spec.name}: {bad}", {"kind": "short-circuit", "class": spec.name, "cfg": public_cfg(cfg), "batch": b.describe(), "init": init})
     rep.streams["short-circuit"] = {"cases": n}
 
 # ------------------------------------------------------------------ a metric without registered states
+
+
+STATELESS_MAKERS = {"get_synced_metric": lambda g: Bag(""),
+                    "sync_and_compute": lambda g: Bag(""),
+                    "get_synced_metric_collection": lambda g: {"a": _bag_n(g), "b": Bag("")},
+                    "get_synced_state_dict_collection": lambda g: {"b": Bag(""), "a": _bag_n(g)}}
 
 
 def stateless_cases(rep: Report):
@@ -651,17 +711,15 @@ def stateless_cases(rep: Report):
     bag_lines, expect = [], []
     n = 0
     for world, group in ((2, [0, 1]), (3, [0, 1, 2]), (3, [1, 2])):
-        for entry, mk in (("get_synced_metric", lambda g: Bag("")),
-                          ("sync_and_compute", lambda g: Bag("")),
-                          ("get_synced_metric_collection", lambda g: {"a": _bag_n(g), "b": Bag("")}),
-                          ("get_synced_state_dict_collection", lambda g: {"b": Bag(""), "a": _bag_n(g)})):
+        for entry, mk in STATELESS_MAKERS.items():
             ms = {g: mk(g) for g in group}
             n += 1
             desc = {"class": "Bag", "kinds": "", "variant": "stateless", "entry": entry, "world": world, "group": group}
             rep.case(nontrivial_key=("stateless", world, tuple(group), entry))
             rep.count("stateless-metric")
             check_case(rep, label=f"Bag(stateless,{entry})", cls="Bag", cfg_pub={"kinds": "", "variant": "stateless"}, entry=entry,
-                       world=world, group=group, ms=ms, tol=1e-6, replay={"kind": "stateless", **desc}, model_lines=lines, pending=pend)
+                       world=world, group=group, ms=ms, tol=1e-6, replay={"kind": "stateless", **desc, "ranks": bag_record(ms, group), "jitter_seed": None, "tol": 1e-6},
+                       model_lines=lines, pending=pend)
             if entry == "get_synced_metric":
                 outs, traces, status = run_toolkit(entry, world, group, {g: Bag("") for g in group})
                 bag_lines.append(f"fn sync.synced_bag world={world} group={','.join(map(str, group))} " + " ".join(f"r{g}=-" for g in group))
@@ -780,16 +838,69 @@ def search(rep: Report):
                 run_registry_case(rep, f"{rep.seed + 77}:{spec.name}:{ci}:{rep_i}", "thorough", k, None, None)
 
 
+def _nothing(reason):
+    raise ValueError(f"nothing to replay: {reason}")
+
+
 def replay(payload) -> bool:
-    rp = payload["replay"]
+    """True iff the property holds on the recorded case.  The per-rank metrics are rebuilt from the recorded content —
+    registry classes from their configuration + update history, the custom metric from its recorded states — and judged by
+    `check_case` (the oracle of the sweep: the real toolkit on the fake transport vs the real local merge on every rank);
+    `short-circuit` cases by `short_circuit_verdict`.  Payloads recorded before the content was part of the replay dict carry
+    only the generator seed: the case is regenerated and accepted only if it matches the recorded descriptors."""
+    if not isinstance(payload, dict) or payload.get("kind", "failing-input") != "failing-input":
+        _nothing(f"payload kind {payload.get('kind') if isinstance(payload, dict) else None!r} carries no concrete input")
+    rp = payload.get("replay")
+    if not isinstance(rp, dict) or not rp:
+        _nothing("the payload carries no replay dict")
+    kind = rp.get("kind")
     rep = Report("C02", "quick", 0)
-    if rp.get("kind") == "registry":
-        run_registry_case(rep, rp["case_seed"], rp.get("tier", "quick"), rp["k"], None, None)
-    elif rp.get("kind") == "bag":
-        world, group, kinds, variant, entry, ms, extra = make_bag_case(rp["case_seed"])
-        check_case(rep, label="Bag", cls="Bag", cfg_pub={}, entry=entry, world=world, group=group, ms=ms, tol=1e-6, replay=rp, extra=extra)
-    elif rp.get("kind") == "stateless":
-        stateless_cases(rep)
+    if kind == "short-circuit":
+        from ..registry import Batch
+        if rp.get("class") not in BY_NAME or not isinstance(rp.get("batch"), dict) or not isinstance(rp.get("init"), bool):
+            _nothing("short-circuit payload without class, configuration, the update batch and the initialised flag")
+        spec = BY_NAME[rp["class"]]
+        m = new_metric(spec, dict(rp.get("cfg") or {}))
+        Batch.from_describe(rp["batch"]).apply(m)
+        bad = short_circuit_verdict(m, rp["init"])
+        if bad:
+            print(f"replay: {spec.name}: {bad}"[:500])
+        return bad is None
+    if kind not in ("registry", "bag", "stateless"):
+        _nothing(f"replay kind {kind!r} is not one of registry / bag / stateless / short-circuit")
+    if not all(k in rp for k in ("entry", "world", "group")) or rp["entry"] not in ENTRIES:
+        _nothing("the payload lacks the toolkit entry point, the world size or the group")
+    entry, world, group = rp["entry"], int(rp["world"]), [int(g) for g in rp["group"]]
+    extra, js = rp.get("extra"), rp.get("jitter_seed")
+    if isinstance(rp.get("ranks"), dict):
+        if sorted(rp["ranks"]) != sorted(str(g) for g in group):
+            _nothing("the recorded per-rank content does not cover the members of the group")
+        if kind == "registry":
+            if rp.get("class") not in BY_NAME:
+                _nothing(f"unknown registry class {rp.get('class')!r}")
+            spec = BY_NAME[rp["class"]]
+            ms, cls, cfg_pub, tol = metrics_from_record(spec, rp["ranks"], group), spec.name, rp.get("cfg", {}), rp.get("tol", spec.tol)
+        else:
+            ms, cls, cfg_pub, tol = bags_from_record(rp["ranks"], group), "Bag", {"kinds": rp.get("kinds"), "variant": rp.get("variant")}, rp.get("tol", 1e-6)
+    elif kind == "registry" and "case_seed" in rp and "k" in rp:
+        spec, cfg, world2, group2, entry2, ms, counts = make_registry_case(rp["case_seed"], rp.get("tier", "quick"), rp["k"])
+        if (spec.name, world2, list(group2), entry2) != (rp.get("class"), world, group, entry) or \
+                ("updates_per_rank" in rp and {str(g): v for g, v in counts.items()} != {str(g): v for g, v in rp["updates_per_rank"].items()}):
+            _nothing("seed-only payload: the regenerated case no longer matches the recorded class / entry / world / group / update counts")
+        cls, cfg_pub, tol = spec.name, public_cfg(cfg), spec.tol
+        js = (zlib.crc32(rp["case_seed"].encode()) % 100000) if rp["k"] % 4 == 0 else None
+    elif kind == "bag" and "case_seed" in rp:
+        world2, group2, kinds, variant, entry2, ms, extra = make_bag_case(rp["case_seed"])
+        if (world2, list(group2), kinds, variant, entry2) != (world, group, rp.get("kinds"), rp.get("variant"), entry):
+            _nothing("seed-only payload: the regenerated Bag case no longer matches the recorded descriptors")
+        cls, cfg_pub, tol = "Bag", {"kinds": kinds, "variant": variant}, 1e-6
+    elif kind == "stateless" and entry in STATELESS_MAKERS:
+        # (recorded before the states were part of the payload) the fixed table of stateless_cases: member g holds Bag("") / {a: Bag(n = g+1), b: Bag("")}
+        ms, cls, cfg_pub, tol = {g: STATELESS_MAKERS[entry](g) for g in group}, "Bag", {"kinds": "", "variant": "stateless"}, 1e-6
     else:
-        short_circuit_cases(rep, Rng(2))
+        _nothing("the payload carries neither the per-rank content nor a generator seed")
+    check_case(rep, label=f"{cls}{cfg_pub}", cls=cls, cfg_pub=cfg_pub, entry=entry, world=world, group=group, ms=ms, tol=tol,
+               replay={"kind": kind}, jitter_seed=js, extra=extra)
+    for v in rep.violations:
+        print(f"replay: {v['signature']}: {v['what']}"[:600])
     return not rep.violations
